@@ -181,6 +181,25 @@ def _alive_pairs(sl, lines, start, stop=None):
     return pairs
 
 
+def joined_pairs(script, lines, start, stop=None):
+    """like _alive_pairs for scripts that hold ops printing SEVERAL transcript lines (chunkall: `it=`, `c …`, `end n=`): those
+    lines are joined into one (the predicate does not look inside the answer of a call it treats as `Op.other`)"""
+    from . import chunks as C
+    sl = [l for l in script.split("\n") if l.strip()]
+    if not any(l.startswith("chunkall") for l in sl):
+        return _alive_pairs(sl, lines, start, stop)
+    out = []
+    for k, (opt, ls) in enumerate(C.split_ops(script, lines)):
+        if k >= len(sl) or opt[0] == "<trailing>" or (stop is not None and k >= stop):
+            break
+        if k < start:
+            continue
+        if not ls or any(l.startswith(DEAD) for l in ls):
+            break
+        out.append((sl[k], " | ".join(ls) if len(ls) > 1 else ls[0]))
+    return out
+
+
 def add_read_test(judge, name, script, lines, ch, F, ref_items, seekable, bw):
     """all-format read/seek history (vlib/readcamp.py test_phase): reference streams = the sequential reads of the write phase;
     raw reference = the sequential raw read of the prelude.  Returns the script line the judged lines start at."""
